@@ -59,4 +59,447 @@ unambiguous); a special case of `C15_symm_all`. -/
 theorem C15_symm (g h : RGeom) (tol : Rat) (_ : Spec.separated g tol h = true) (_ : 0 < tol) :
     sim g tol h = sim h tol g := sim_comm tol g h
 
+/-! ## model = specification when matching is unambiguous -/
+
+theorem specSimL_eq_map (gs : List RGeom) (e : Rat) : Spec.specSimL gs e = gs.map fun g => Spec.specSim g e := by
+  induction gs with
+  | nil => simp [Spec.specSimL]
+  | cons g gs ih => simp [Spec.specSimL, ih]
+
+theorem separatedL_eq_map (gs : List RGeom) (e : Rat) : Spec.separatedL gs e = gs.map fun g => Spec.separated g e := by
+  induction gs with
+  | nil => simp [Spec.separatedL]
+  | cons g gs ih => simp [Spec.separatedL, ih]
+
+theorem mlsSimilar_eq (ls ls' : List (List P)) (e : Rat)
+    (hs : Spec.sepRel (ls.map fun l => fun l' => Spec.ptsNear l l' e) ls' = true) :
+    mlsSimilar ls ls' e = Spec.mlsNear ls ls' e := by
+  unfold mlsSimilar Spec.mlsNear
+  have : (ls.map fun l => fun l' => pointsSimilar l l' e) = (ls.map fun l => fun l' => Spec.ptsNear l l' e) := by
+    congr; funext l l'; exact pointsSimilar_eq_ptsNear l l' e
+  rw [this]; exact matchMembers_eq_existsMatching _ _ hs
+
+theorem polygonSimilar_eq (rs rs' : List (List P)) (e : Rat)
+    (hs : Spec.sepRel (Spec.ringPreds rs e) rs' = true) :
+    polygonSimilar rs rs' e = Spec.polygonNear rs rs' e := by
+  unfold polygonSimilar Spec.polygonNear
+  have : (rs.map fun r => fun r' => ringSimilar r r' e) = Spec.ringPreds rs e := by
+    unfold Spec.ringPreds; congr; funext r r'; exact ringSimilar_eq_ringNear r r' e
+  rw [this]; exact matchMembers_eq_existsMatching _ _ hs
+
+theorem mpgSimilar_eq (ps ps' : List (List (List P))) (e : Rat)
+    (hs : Spec.sepRel (ps.map fun p => fun p' => Spec.polygonNear p p' e) ps' = true)
+    (hr : ∀ p ∈ ps, ∀ p' ∈ ps', Spec.sepRel (Spec.ringPreds p e) p' = true) :
+    mpgSimilar ps ps' e = Spec.mpgNear ps ps' e := by
+  unfold mpgSimilar Spec.mpgNear
+  rw [matchMembers_congr (fun p p' => polygonSimilar p p' e) (fun p p' => Spec.polygonNear p p' e) ps ps'
+    (fun p hp p' hp' => polygonSimilar_eq p p' e (hr p hp p' hp'))]
+  exact matchMembers_eq_existsMatching _ _ hs
+
+mutual
+theorem model_eq_spec (e : Rat) : ∀ (g h : RGeom), Spec.separated g e h = true → sim g e h = Spec.specSim g e h
+  | .point p, h, _ => by cases h <;> simp [sim, Spec.specSim, pointSimilar_eq_ptNear]
+  | .multiPoint ps, h, _ => by cases h <;> simp [sim, Spec.specSim, pointsSimilar_eq_ptsNear]
+  | .lineString ps, h, _ => by cases h <;> simp [sim, Spec.specSim, pointsSimilar_eq_ptsNear]
+  | .bounds a b, h, _ => by cases h <;> simp [sim, Spec.specSim, pointSimilar_eq_ptNear]
+  | .nil, h, _ => by cases h <;> simp [sim, Spec.specSim]
+  | .multiLineString ls, h, hs => by
+    cases h with
+    | multiLineString ls' => simp only [sim, Spec.specSim]; exact mlsSimilar_eq ls ls' e (by simpa [Spec.separated] using hs)
+    | _ => simp [sim, Spec.specSim]
+  | .polygon rs, h, hs => by
+    cases h with
+    | polygon rs' => simp only [sim, Spec.specSim]; exact polygonSimilar_eq rs rs' e (by simpa [Spec.separated] using hs)
+    | _ => simp [sim, Spec.specSim]
+  | .multiPolygon ps, h, hs => by
+    cases h with
+    | multiPolygon ps' =>
+      simp only [sim, Spec.specSim]
+      simp only [Spec.separated, Bool.and_eq_true, List.all_eq_true] at hs
+      exact mpgSimilar_eq ps ps' e hs.1 hs.2
+    | _ => simp [sim, Spec.specSim]
+  | .collection gs, h, hs => by
+    cases h with
+    | collection hs' =>
+      simp only [Spec.separated, Bool.and_eq_true, List.all_eq_true, separatedL_eq_map, List.mem_map] at hs
+      simp only [sim, Spec.specSim, simL_eq_map]
+      rw [matchMembers_congr (fun g h => sim g e h) (fun g h => Spec.specSim g e h) gs hs'
+        (fun g hg h hh => model_eq_specL e gs g hg h (hs.2 _ ⟨g, hg, rfl⟩ h hh))]
+      rw [← specSimL_eq_map]
+      exact matchMembers_eq_existsMatching _ _ hs.1
+    | _ => simp [sim, Spec.specSim]
+theorem model_eq_specL (e : Rat) : ∀ (gs : List RGeom), ∀ g ∈ gs, ∀ h, Spec.separated g e h = true →
+    sim g e h = Spec.specSim g e h
+  | [] => by simp
+  | g' :: gs => List.forall_mem_cons.2 ⟨model_eq_spec e g', model_eq_specL e gs⟩
+end
+
+/-- **The code computes the specification** on every pair whose matching is unambiguous
+(`separated`, at every nesting level): `g.Similar(h, tol)` is `true` exactly when `h` has the same
+type as `g` and is obtained from it by moving every coordinate by less than `tol`, reordering
+members (some one-to-one pairing of similar members exists) and restarting closed rings at another
+vertex (`Spec.specSim`). All eight types, any nesting depth, any tolerance. -/
+theorem C15_model_eq_spec (g h : RGeom) (tol : Rat) (hs : Spec.separated g tol h = true) :
+    sim g tol h = Spec.specSim g tol h := model_eq_spec tol g h hs
+
+/-! ## "true when perturbed / members reordered / closed rings restarted" -/
+
+/-- **Perturbation clause, general form.** If `h` is `g` with every coordinate moved by less than
+`tol`, members reordered and closed rings restarted at another vertex — which is what
+`Spec.specSim g tol h = true` says (see `specSim_members_iff`, `C15_perturb_ring` for the explicit
+permutation / rotation readings) — and matching is unambiguous, then `g.Similar(h, tol)` is true. -/
+theorem C15_perturb (g h : RGeom) (tol : Rat) (hs : Spec.separated g tol h = true)
+    (hp : Spec.specSim g tol h = true) : sim g tol h = true := by
+  rw [model_eq_spec tol g h hs]; exact hp
+
+/-- explicit reading of the member clause: the specification's search succeeds iff SOME reordering
+of the argument's members is matched position by position -/
+theorem specSim_members_iff {β : Type} (ps : List (β → Bool)) (ys : List β) :
+    Spec.existsMatching ps ys = true ↔ ∃ ys', List.Perm ys' ys ∧ Spec.AllHold ps ys' :=
+  existsMatching_iff ps ys
+
+/-- **Reordered members.** If some reordering `ys'` of the argument's members is similar to the
+receiver's members position by position and matching is unambiguous, the greedy matcher says true
+(instantiated by lines of a multi-line-string, rings of a polygon, polygons of a multi-polygon,
+members of a collection). -/
+theorem C15_perturb_members {β : Type} (ps : List (β → Bool)) (ys ys' : List β)
+    (hperm : List.Perm ys' ys) (hall : Spec.AllHold ps ys') (hs : Spec.sepRel ps ys = true) :
+    matchMembers ps ys = true :=
+  (greedy_iff_perfect ps ys hs).2 ⟨ys', hperm, hall⟩
+
+theorem rot_rot_inv {α : Type} (c : List α) (k : Nat) (hk : k < c.length) :
+    Spec.rot ((c.length - k) % c.length) (Spec.rot k c) = c := by
+  by_cases h0 : k = 0
+  · subst h0; simp [Spec.rot]
+  · rw [Nat.mod_eq_of_lt (by omega)]
+    unfold Spec.rot
+    have hl : (c.drop k).length = c.length - k := by simp
+    rw [← hl, List.drop_left, List.take_left, List.take_append_drop]
+
+theorem cyc_rotateRing (k : Nat) (b : List P) (hk : k < (Spec.cyc b).length) :
+    Spec.cyc (Spec.rotateRing k b) = Spec.rot k (Spec.cyc b) ∧
+      (Spec.rotateRing k b).length = (Spec.cyc b).length + 1 := by
+  unfold Spec.rotateRing
+  have hlen := length_rot k (Spec.cyc b) (by omega)
+  cases hr : Spec.rot k (Spec.cyc b) with
+  | nil => rw [hr] at hlen; simp at hlen; omega
+  | cons p r =>
+    rw [hr] at hlen
+    constructor
+    · show ((p :: r) ++ [p]).dropLast = p :: r
+      exact List.dropLast_concat
+    · show ((p :: r) ++ [p]).length = (Spec.cyc b).length + 1
+      rw [List.length_append, hlen]; rfl
+
+/-- **Perturbed and restarted closed ring.** Let `b` be `a` with every vertex moved by less than
+`tol` (`ptsNear a b`), and restart `b` at its `k`-th vertex (`rotateRing k b`: rotate the cycle,
+close it again). Then `ringSimilar` — the code after the second fix — answers `true`; no
+`AnchorStable`-style hypothesis is needed any more (axis-aligned rectangles included). -/
+theorem C15_perturb_ring (a b : List P) (tol : Rat) (k : Nat) (h2 : 2 ≤ a.length)
+    (hp : Spec.ptsNear a b tol = true) (hk : k < b.length - 1) :
+    ringSimilar a (Spec.rotateRing k b) tol = true := by
+  rw [ringSimilar_eq_ringNear]
+  have hl : a.length = b.length := by
+    rw [← pointsSimilar_eq_ptsNear] at hp; exact pointsSimilar_length a b tol hp
+  have hcb : (Spec.cyc b).length = b.length - 1 := length_cyc b
+  obtain ⟨hc, hlen⟩ := cyc_rotateRing k b (by omega)
+  have hcyc : Spec.ptsNear (Spec.cyc a) (Spec.cyc b) tol = true := by
+    rw [← pointsSimilar_eq_ptsNear] at hp ⊢
+    rw [pointsSimilar_iff] at hp ⊢
+    refine ⟨by rw [length_cyc, length_cyc, hl], ?_⟩
+    intro i p q h1 h2'
+    have hi : i < a.length - 1 := by
+      have := (List.getElem?_eq_some_iff.1 h1).1; rwa [length_cyc] at this
+    rw [getElem?_cyc a i hi] at h1
+    rw [getElem?_cyc b i (by omega)] at h2'
+    exact hp.2 i p q h1 h2'
+  unfold Spec.ringNear
+  have hne : ¬ a.length ≤ 1 := by omega
+  simp only [hne, if_false, Bool.and_eq_true, beq_iff_eq, List.any_eq_true, List.mem_range]
+  refine ⟨by omega, ((Spec.cyc b).length - k) % (Spec.cyc b).length, ?_, ?_⟩
+  · have : (Spec.cyc b).length = a.length - 1 := by omega
+    rw [this]; exact Nat.mod_lt _ (by omega)
+  · rw [hc, rot_rot_inv _ _ (by omega)]; exact hcyc
+
+/-- **Perturbed point lists** (multi-point, line string, point, bounds corners): moving every
+coordinate by less than `tol` keeps them similar. -/
+theorem C15_perturb_points (ps qs : List P) (p q p' q' : P) (tol : Rat) :
+    (Spec.ptsNear ps qs tol = true → sim (.lineString ps) tol (.lineString qs) = true ∧
+      sim (.multiPoint ps) tol (.multiPoint qs) = true) ∧
+    (Spec.ptNear p q tol = true → sim (.point p) tol (.point q) = true) ∧
+    (Spec.ptNear p q tol = true → Spec.ptNear p' q' tol = true →
+      sim (.bounds p p') tol (.bounds q q') = true) := by
+  simp only [sim, pointsSimilar_eq_ptsNear, pointSimilar_eq_ptNear]
+  refine ⟨fun h => ⟨h, h⟩, fun h => h, fun h1 h2 => by simp [h1, h2]⟩
+
+/-! ## "false when …" -/
+
+/-- index of the dynamic type -/
+def tag : RGeom → Nat
+  | .point _ => 0 | .multiPoint _ => 1 | .lineString _ => 2 | .multiLineString _ => 3
+  | .polygon _ => 4 | .multiPolygon _ => 5 | .collection _ => 6 | .bounds _ _ => 7 | .nil => 8
+
+/-- number of vertices (point lists) or members (member lists) -/
+def memberCount : RGeom → Nat
+  | .point _ => 1 | .multiPoint ps => ps.length | .lineString ps => ps.length
+  | .multiLineString ls => ls.length | .polygon rs => rs.length | .multiPolygon ps => ps.length
+  | .collection gs => gs.length | .bounds _ _ => 2 | .nil => 0
+
+/-- **Different types ⇒ false.** -/
+theorem C15_false_type (g h : RGeom) (tol : Rat) (ht : tag g ≠ tag h) : sim g tol h = false := by
+  cases g <;> cases h <;> simp [sim, tag] at ht ⊢
+
+theorem pointsSimilar_false_of_length (ps qs : List P) (e : Rat) (h : ps.length ≠ qs.length) :
+    pointsSimilar ps qs e = false := by
+  cases hp : pointsSimilar ps qs e with
+  | false => rfl
+  | true => exact absurd (pointsSimilar_length ps qs e hp) h
+
+/-- **Different member counts / vertex counts ⇒ false** (this is what the first fix added for the
+four member-list types). -/
+theorem C15_false_count (g h : RGeom) (tol : Rat) (hc : memberCount g ≠ memberCount h) :
+    sim g tol h = false := by
+  cases g <;> cases h <;>
+    simp [sim, memberCount, mlsSimilar, polygonSimilar, mpgSimilar, matchMembers, simL_eq_map] at hc ⊢ <;>
+    first
+      | exact pointsSimilar_false_of_length _ _ _ hc
+      | (intro h; exact absurd h hc)
+
+/-- a ring or a line whose vertex count differs from the candidate's is not similar to it -/
+theorem C15_false_vertex_count (a b : List P) (tol : Rat) (h : a.length ≠ b.length) :
+    pointsSimilar a b tol = false ∧ ringSimilar a b tol = false := by
+  refine ⟨pointsSimilar_false_of_length a b tol h, ?_⟩
+  cases hr : ringSimilar a b tol with
+  | false => rfl
+  | true => exact absurd ((ringSimilar_iff a b tol).1 hr).1 h
+
+/-- **A member without a similar partner ⇒ false** (inserted / deleted / replaced / displaced
+member; a member whose vertex count matches no candidate). -/
+theorem C15_false_no_partner {β : Type} (ps : List (β → Bool)) (ys : List β)
+    (h : ∃ p ∈ ps, ∀ y ∈ ys, p y = false) : matchMembers ps ys = false :=
+  matchMembers_no_partner ps ys h
+
+theorem pointSimilar_false_of_far (p q : P) (e : Rat)
+    (h : e ≤ (p.x - q.x).abs ∨ e ≤ (p.y - q.y).abs) : pointSimilar p q e = false := by
+  unfold pointSimilar similar
+  rcases h with h | h
+  · have : ¬ ((p.x - q.x).abs < e) := by grind
+    simp [this]
+  · have : ¬ ((p.y - q.y).abs < e) := by grind
+    simp [this]
+
+/-- **One vertex displaced by at least `tol` (in x or in y) ⇒ false**, for point lists compared
+position by position (multi-point, line string; no separation needed). -/
+theorem C15_false_displaced_vertex (ps qs : List P) (tol : Rat) (i : Nat) (p q : P)
+    (hp : ps[i]? = some p) (hq : qs[i]? = some q)
+    (hfar : tol ≤ (p.x - q.x).abs ∨ tol ≤ (p.y - q.y).abs) :
+    sim (.lineString ps) tol (.lineString qs) = false ∧ sim (.multiPoint ps) tol (.multiPoint qs) = false := by
+  have : pointsSimilar ps qs tol = false := by
+    cases h : pointsSimilar ps qs tol with
+    | false => rfl
+    | true =>
+      have := ((pointsSimilar_iff ps qs tol).1 h).2 i p q hp hq
+      rw [pointSimilar_false_of_far p q tol hfar] at this; simp at this
+  simp [sim, this]
+
+/-- **Reversed line string ⇒ false** as soon as some vertex is not within `tol` of its mirror
+vertex. -/
+theorem C15_false_reversed (l : List P) (tol : Rat) (i : Nat) (hi : i < l.length) (p q : P)
+    (hp : l[i]? = some p) (hq : l[l.length - 1 - i]? = some q) (hfar : pointSimilar p q tol = false) :
+    sim (.lineString l) tol (.lineString l.reverse) = false := by
+  simp only [sim]
+  cases h : pointsSimilar l l.reverse tol with
+  | false => rfl
+  | true =>
+    have := ((pointsSimilar_iff l l.reverse tol).1 h).2 i p q hp (by rw [List.getElem?_reverse hi]; exact hq)
+    rw [hfar] at this; simp at this
+
+/-- **One ring vertex displaced ⇒ the rings are not similar**, when the other vertices of the ring
+are not within `tol` of the displaced vertex's original position (vertices separated): `a'` is `a`
+except at index `i` of the cycle (any closing vertex), `p = a[i]`, `q = a'[i]` not similar. -/
+theorem C15_false_displaced_ring_vertex (a a' : List P) (tol : Rat) (i : Nat) (p q : P)
+    (hl : a.length = a'.length) (hi : i < a.length - 1)
+    (hsame : ∀ j, j < a.length - 1 → j ≠ i → a'[j]? = a[j]?)
+    (hp : a[i]? = some p) (hq : a'[i]? = some q) (hpq : pointSimilar p q tol = false)
+    (hsep : ∀ j r, j < a.length - 1 → j ≠ i → a[j]? = some r → pointSimilar p r tol = false) :
+    ringSimilar a a' tol = false := by
+  cases hr : ringSimilar a a' tol with
+  | false => rfl
+  | true =>
+    exfalso
+    obtain ⟨_, h⟩ := (ringSimilar_iff a a' tol).1 hr
+    rcases h with ⟨h1, _⟩ | ⟨h1, k, hk, hf⟩
+    · omega
+    · obtain ⟨p', q', hp', hq', hpq'⟩ := (ringSimilarFrom_iff _ _ _ _ _).1 hf i hi
+      rw [hp] at hp'; simp at hp'; subst hp'
+      have hj : (i + k) % (a.length - 1) < a.length - 1 := Nat.mod_lt _ (by omega)
+      by_cases hji : (i + k) % (a.length - 1) = i
+      · rw [hji, hq] at hq'; simp at hq'; subst hq'; rw [hpq] at hpq'; simp at hpq'
+      · rw [hsame _ hj hji] at hq'
+        rw [hsep _ q' hj hji hq'] at hpq'; simp at hpq'
+
+/-- **One member displaced ⇒ false under separation.** `xs` is separated from itself (each member
+is similar to itself and to no other member); replacing member `x` by an `x'` that is not similar
+to it makes the matcher answer `false`. (Lines, rings, polygons, collection members.) -/
+theorem C15_false_displaced_member {α : Type} (R : α → α → Bool) (l1 l2 : List α) (x x' : α)
+    (hrefl : R x x = true) (hsep : Spec.sepRel ((l1 ++ x :: l2).map R) (l1 ++ x :: l2) = true)
+    (hx : R x x' = false) :
+    matchMembers ((l1 ++ x :: l2).map R) (l1 ++ x' :: l2) = false := by
+  apply matchMembers_no_partner
+  refine ⟨R x, by simp, ?_⟩
+  intro y hy
+  have hs := ((sepRel_iff _ _).1 hsep).1 (R x) (by simp)
+  cases hxy : R x y with
+  | false => rfl
+  | true =>
+    exfalso
+    have hy' : y = x' ∨ y ∈ l1 ++ l2 := by
+      simp at hy ⊢; rcases hy with h | h | h
+      · exact Or.inr (Or.inl h)
+      · exact Or.inl h
+      · exact Or.inr (Or.inr h)
+    rcases hy' with rfl | hm
+    · rw [hx] at hxy; simp at hxy
+    · have := countP_two (R x) l1 l2 x y hrefl hxy hm
+      omega
+
+/-- **The "false" clauses of the property, collected**: different types; different member or
+vertex counts; a member with no similar partner; a displaced vertex in a point list; a reversed
+line string. (Ring-vertex and member displacement under separation:
+`C15_false_displaced_ring_vertex`, `C15_false_displaced_member`.) -/
+theorem C15_false_cases (tol : Rat) :
+    (∀ g h : RGeom, tag g ≠ tag h → sim g tol h = false) ∧
+    (∀ g h : RGeom, memberCount g ≠ memberCount h → sim g tol h = false) ∧
+    (∀ a b : List P, a.length ≠ b.length → pointsSimilar a b tol = false ∧ ringSimilar a b tol = false) ∧
+    (∀ (l : List P) (i : Nat) (p q : P), i < l.length → l[i]? = some p → l[l.length - 1 - i]? = some q →
+      pointSimilar p q tol = false → sim (.lineString l) tol (.lineString l.reverse) = false) ∧
+    (∀ (ps qs : List P) (i : Nat) (p q : P), ps[i]? = some p → qs[i]? = some q →
+      (tol ≤ (p.x - q.x).abs ∨ tol ≤ (p.y - q.y).abs) →
+      sim (.lineString ps) tol (.lineString qs) = false ∧ sim (.multiPoint ps) tol (.multiPoint qs) = false) :=
+  ⟨fun g h => C15_false_type g h tol, fun g h => C15_false_count g h tol,
+   fun a b => C15_false_vertex_count a b tol,
+   fun l i p q hi hp hq hf => C15_false_reversed l tol i hi p q hp hq hf,
+   fun ps qs i p q hp hq hf => C15_false_displaced_vertex ps qs tol i p q hp hq hf⟩
+
+/-! ## without any separation hypothesis: a `true` answer is always justified -/
+
+theorem allHold_mono {α β : Type} (R R2 : α → β → Bool) (xs : List α)
+    (h : ∀ x ∈ xs, ∀ y, R x y = true → R2 x y = true) :
+    ∀ ys', Spec.AllHold (xs.map R) ys' → Spec.AllHold (xs.map R2) ys' := by
+  induction xs with
+  | nil => intro ys' ha; cases ys' <;> simp_all [Spec.AllHold]
+  | cons x xs ih =>
+    intro ys' ha
+    cases ys' with
+    | nil => simp [Spec.AllHold] at ha
+    | cons y t =>
+      simp only [List.map_cons, Spec.AllHold] at ha ⊢
+      exact ⟨h x (by simp) y ha.1, ih (fun a ha' => h a (by simp [ha'])) t ha.2⟩
+
+theorem matchMembers_sound_mono {α β : Type} (R R2 : α → β → Bool) (xs : List α) (ys : List β)
+    (h : ∀ x ∈ xs, ∀ y, R x y = true → R2 x y = true)
+    (hm : matchMembers (xs.map R) ys = true) : Spec.existsMatching (xs.map R2) ys = true := by
+  obtain ⟨ys', hp, ha⟩ := greedyRem_perfect _ _ ((matchMembers_iff _ _).1 hm)
+  exact (existsMatching_iff _ _).2 ⟨ys', hp, allHold_mono R R2 xs h ys' ha⟩
+
+theorem polygonSimilar_sound (rs rs' : List (List P)) (e : Rat) (h : polygonSimilar rs rs' e = true) :
+    Spec.polygonNear rs rs' e = true :=
+  matchMembers_sound_mono (fun r r' => ringSimilar r r' e) (fun r r' => Spec.ringNear r r' e) rs rs'
+    (fun r _ r' hr => by rw [← ringSimilar_eq_ringNear]; exact hr) h
+
+mutual
+theorem sim_sound (e : Rat) : ∀ (g h : RGeom), sim g e h = true → Spec.specSim g e h = true
+  | .point p, h => by cases h <;> simp [sim, Spec.specSim, pointSimilar_eq_ptNear]
+  | .multiPoint ps, h => by cases h <;> simp [sim, Spec.specSim, pointsSimilar_eq_ptsNear]
+  | .lineString ps, h => by cases h <;> simp [sim, Spec.specSim, pointsSimilar_eq_ptsNear]
+  | .bounds a b, h => by cases h <;> simp [sim, Spec.specSim, pointSimilar_eq_ptNear]
+  | .nil, h => by cases h <;> simp [sim, Spec.specSim]
+  | .multiLineString ls, h => by
+    cases h with
+    | multiLineString ls' =>
+      simp only [sim, Spec.specSim]
+      exact matchMembers_sound_mono (fun l l' => pointsSimilar l l' e) (fun l l' => Spec.ptsNear l l' e) ls ls'
+        (fun l _ l' hl => by rw [← pointsSimilar_eq_ptsNear]; exact hl)
+    | _ => simp [sim, Spec.specSim]
+  | .polygon rs, h => by
+    cases h with
+    | polygon rs' => simp only [sim, Spec.specSim]; exact polygonSimilar_sound rs rs' e
+    | _ => simp [sim, Spec.specSim]
+  | .multiPolygon ps, h => by
+    cases h with
+    | multiPolygon ps' =>
+      simp only [sim, Spec.specSim]
+      exact matchMembers_sound_mono (fun p p' => polygonSimilar p p' e) (fun p p' => Spec.polygonNear p p' e) ps ps'
+        (fun p _ p' hp => polygonSimilar_sound p p' e hp)
+    | _ => simp [sim, Spec.specSim]
+  | .collection gs, h => by
+    cases h with
+    | collection hs =>
+      simp only [sim, Spec.specSim, simL_eq_map, specSimL_eq_map]
+      exact matchMembers_sound_mono (fun g h => sim g e h) (fun g h => Spec.specSim g e h) gs hs
+        (fun g hg h hh => sim_soundL e gs g hg h hh)
+    | _ => simp [sim, Spec.specSim]
+theorem sim_soundL (e : Rat) : ∀ (gs : List RGeom), ∀ g ∈ gs, ∀ h, sim g e h = true → Spec.specSim g e h = true
+  | [] => by simp
+  | g' :: gs => List.forall_mem_cons.2 ⟨sim_sound e g', sim_soundL e gs⟩
+end
+
+/-- **Every "false" clause at once, with no separation hypothesis**: whenever the specification
+says *not similar* — no type-preserving, one-to-one pairing of members, rotation of rings and
+< tol vertex-by-vertex agreement exists (different types, different member or vertex counts, a
+reversed line, a vertex displaced by ≥ tol with nothing else within tol, …) — the code answers
+`false`. Equivalently a `true` answer always comes with such a pairing. -/
+theorem C15_false_of_spec (g h : RGeom) (tol : Rat) (hn : Spec.specSim g tol h = false) :
+    sim g tol h = false := by
+  cases hs : sim g tol h with
+  | false => rfl
+  | true => rw [sim_sound tol g h hs] at hn; simp at hn
+
+/-- `greedy_iff_perfect` (proved in Lemmas.lean): under `sepRel` the greedy matcher with the count
+check answers `true` iff the member-similarity relation has a perfect matching (is a bijection
+between the member lists). -/
+theorem C15_greedy_iff_perfect {β : Type} (ps : List (β → Bool)) (ys : List β)
+    (hs : Spec.sepRel ps ys = true) : matchMembers ps ys = true ↔ Spec.PerfectMatch ps ys :=
+  greedy_iff_perfect ps ys hs
+
+/-- the index loops of the (fixed) `ringSimilar` never index out of range and compute the
+rotation reading of the specification -/
+theorem C15_ring_index_eq_rotation (a b : List P) (tol : Rat) :
+    ringSimilar a b tol = Spec.ringNear a b tol ∧
+    (∀ k n i, n ≤ a.length → n ≤ b.length → i < n → (a[i]?).isSome ∧ (b[(i + k) % n]?).isSome) :=
+  ⟨ringSimilar_eq_ringNear a b tol, fun k n i ha hb hi => ringSimilarFrom_inbounds a b k n i ha hb hi⟩
+
+/-! ## non-vacuity: the hypotheses are satisfiable, on the inputs that used to fail -/
+
+section Examples
+private def pt (x y : Rat) : P := ⟨x, y⟩
+/-- unit square, closed -/
+private def sq : List P := [pt 0 0, pt 1 0, pt 1 1, pt 0 1, pt 0 0]
+/-- the same square, one X moved by 1/1000 (anchor tie: the old code compared out of phase) and
+restarted at its third vertex -/
+private def sq' : List P := [pt 1 1, pt (-1/1000) 1, pt 0 0, pt 1 0, pt 1 1]
+private def far : List P := [pt 5 5, pt 6 5, pt 6 6, pt 5 5]
+
+/-- `separated` and `specSim` hold for polygon{far, square} vs polygon{square', far} at tol 1/100,
+so `C15_perturb` applies; its conclusion, evaluated on the model: -/
+example : Spec.separated (.polygon [far, sq]) (1/100) (.polygon [sq', far]) = true := by decide +kernel
+example : Spec.specSim (.polygon [far, sq]) (1/100) (.polygon [sq', far]) = true := by decide +kernel
+example : sim (.polygon [far, sq]) (1/100) (.polygon [sq', far]) = true := by decide +kernel
+/-- extra ring on the argument side: both orders now answer false (`C15_false_count`) -/
+example : sim (.polygon [sq]) (1/10) (.polygon [sq, far]) = false ∧
+    sim (.polygon [sq, far]) (1/10) (.polygon [sq]) = false := by decide +kernel
+/-- the loops without the count check (the code before the first fix) were not symmetric -/
+example : greedy ([] : List (Nat → Bool)) [1] = true ∧ greedy [fun _ => true] ([] : List Nat) = false := by
+  decide
+/-- hypotheses of `C15_false_displaced_ring_vertex` / `C15_false_reversed` are satisfiable -/
+example : ringSimilar sq [pt 0 0, pt 1 0, pt 1 (3/2), pt 0 1, pt 0 0] (1/10) = false := by decide +kernel
+example : sim (.lineString [pt 0 0, pt 1 0]) (1/10) (.lineString [pt 0 0, pt 1 0].reverse) = false := by
+  decide +kernel
+/-- nested collections -/
+example : Spec.separated (.collection [.point (pt 0 0), .collection [.lineString [pt 1 1, pt 2 2]]]) (1/10)
+    (.collection [.collection [.lineString [pt 1 (21/20), pt 2 2]], .point (pt 0 0)]) = true := by decide +kernel
+example : sim (.collection [.point (pt 0 0), .collection [.lineString [pt 1 1, pt 2 2]]]) (1/10)
+    (.collection [.collection [.lineString [pt 1 (21/20), pt 2 2]], .point (pt 0 0)]) = true := by decide +kernel
+end Examples
+
 end GeomV.C15
